@@ -21,7 +21,11 @@ STUBS = [
     "np.min/np.max: fold with symbolic comparison",
     "np.power(a,b): numpy dtype contract - two Python ints: ValueError if b<0, exact value wrapped into int64; "
     "otherwise real power for an integral exponent, uninterpreted powr(a,b) for other exponents",
-    "np.absolute: If(v<0,-v,v); np.seterr: no-op; np.format_float_positional: realise, then real numpy",
+    "np.absolute: If(v<0,-v,v) as a numpy scalar (int64 for a Python int that fits, -2^63 maps to itself; float64 for floats); "
+    "np.seterr: no-op; np.format_float_positional: realise, then real numpy",
+    "numpy scalars (results of np.power / np.absolute) keep their kind in later + - * /: int64 results wrap, a Python int "
+    "operand beyond int64 raises OverflowError (numpy >= 2), x / 0 gives +-inf or nan instead of raising, isinstance(x, int) "
+    "is False; // % ** with a numpy scalar are not modelled (path inconclusive)",
     "math.isnan: False on (finite) proxies; math.factorial: realise then real; math.isclose: real",
     "float(v) inside mathy_core.expressions: the same real value typed as a Python float",
 ]
